@@ -358,9 +358,9 @@ def fp_oracle(prog, job, out, log=print):
             rec['time'] = round(rr['time'], 3)
             rec['by_solver'] = {solver: rr['status']}
             out['results'].append(rec)
-    extras = [e for e in getattr(ex, 'extras', []) if e['kind'] == 'oracle']
+    extras = [e for e in getattr(ex, 'extras', []) if e['kind'] in ('oracle', 'monotone')]
     if len(extras) != 1:
-        raise Unsupported('fp_oracle needs exactly one verif.Oracle call')
+        raise Unsupported('fp_oracle needs exactly one verif.Oracle / verif.Monotone call')
     e = extras[0]
     val, digits = e['val'], e['digits']
     order, zone, frontier = tabulate.analyse([val], {})
@@ -413,8 +413,10 @@ def fp_oracle(prog, job, out, log=print):
         x = struct.unpack('<d', struct.pack('<Q', b))[0]
         k10 = round(x * 10) if x == x and abs(x) < 1e6 else -998
         sc_impl[k] = k10 if (k10 / 10.0 == x) else -997
-    # spec score per distinct level tuple
     lev = np.stack([domains[nf + j][mat[:, nf + j]].astype(np.int64) for j in range(len(digits))], axis=1)
+    if e['kind'] == 'monotone':
+        return oracle_monotone(ex, e, F, digits, mat, domains, lev, sc_impl, inv_f, bad_impl, res, out, rep, info, solver, log)
+    # spec score per distinct level tuple
     ul, inv_l = np.unique(lev, axis=0, return_inverse=True)
     t1 = time.time()
     sc_spec = spec_scores_v4(ul, workers, log)
@@ -613,4 +615,78 @@ def spec_scores_v4(levels, workers, log):
         log('    (exact specification table of %d classes computed and cached)' % n)
     out = tab[idx].astype(np.int64)
     out[~ok] = -555
+    return out
+
+
+def oracle_monotone(ex, e, F, digits, mat, domains, lev, sc_impl, inv_f, bad_impl, res, out, rep, info, solver, log):
+    """one severity step up (digit + 1, others fixed) never lowers the folded score, over the complete
+    table of classes (digits are severity ranks, 0 = least severe)"""
+    import numpy as np
+    got = sc_impl[inv_f.reshape(-1)]
+    radix = [int(lev[:, j].max()) + 1 for j in range(lev.shape[1])]
+    n = 1
+    for r in radix:
+        n *= r
+    idx = np.zeros(len(lev), dtype=np.int64)
+    for j, r in enumerate(radix):
+        idx = idx * r + lev[:, j]
+    S = np.full(n, -1, dtype=np.int64)
+    first = np.full(n, -1, dtype=np.int64)
+    order = np.argsort(idx, kind='stable')
+    S[idx[order]] = got[order]
+    first[idx[order]] = order
+    # the score must be a function of the class (C10) for the relation to be meaningful
+    dup = np.nonzero(S[idx] != got)[0]
+    res['classes'] = int((S >= 0).sum())
+    res['rows'] = int(len(mat))
+    out['tabulation'] = {k: v for k, v in rep.items() if k not in ('failures', 'relations', 'level_records')}
+    out['tabulation']['oracle'] = {'joint': info, 'classes': res['classes'], 'rows': int(len(mat))}
+    viol = None
+    if len(dup):
+        viol = ('same class, two scores', int(first[idx[dup[0]]]), int(dup[0]))
+    else:
+        cube = S.reshape(radix)
+        fcube = first.reshape(radix)
+        for j in range(len(radix)):
+            lo = np.take(cube, range(0, radix[j] - 1), axis=j)
+            hi = np.take(cube, range(1, radix[j]), axis=j)
+            bad = (lo >= 0) & (hi >= 0) & (hi < lo)
+            if bad.any():
+                pos = np.argwhere(bad)[0]
+                a = fcube[tuple(pos)]
+                pos2 = pos.copy()
+                pos2[j] += 1
+                b = fcube[tuple(pos2)]
+                viol = ('score decreases when digit %d goes %d -> %d' % (j, pos[j], pos[j] + 1), int(a), int(b))
+                res['n_violating_pairs'] = int(bad.sum())
+                break
+    if viol is None:
+        res['status'] = 'unsat'
+        res['reachable'] = 'sat'
+    else:
+        enum = tabulate.Enumerator(ex.assumptions, F + digits, solver, 600)
+        models = []
+        try:
+            for i in viol[1:]:
+                cons = []
+                for j, t in enumerate(F + digits):
+                    v = int(domains[j][mat[i, j]])
+                    cons.append((t, bool(v) if t.sort == 'B' else v))
+                st, m = enum.witness(cons)
+                models.append(m if st == 'sat' else None)
+        finally:
+            enum.close()
+        res['why'] = viol[0]
+        log('    relation monotone(%s): %s' % (e['name'], viol[0]))
+        if all(m is not None for m in models):
+            res['status'] = 'sat'
+            res['pair'] = models
+            res['relation'] = 'monotone'
+        else:
+            res['status'] = 'unknown'
+            res['errors'] = ['violating pair without concrete witnesses']
+    res['by_solver'] = {solver + '+fold': res['status']}
+    res['kind'] = 'relation:monotone'
+    out['results'].append(res)
+    out['terms'] = TM.nterms()
     return out
